@@ -72,10 +72,52 @@ def evaluate_all(est):
     return out
 
 
+USER_LIB = """units:
+    molar enthalpy: kJ/mol
+    molar entropy: J/(mol*K)
+    molar heat capacity: J/(mol*K)
+    temperature: K
+groups:
+    'C(C)(H)3':
+        thermochem:
+            T_ref: 298.15
+            H_ref: -42.68
+            S_ref: 127.3
+            Cp_data:
+                - [300, 25.9]
+                - [500, 39.4]
+                - [1000, 61.8]
+            range: [298, 1000]
+    'C(C)2(H)2':
+        thermochem:
+            T_ref: 298.15
+            H_ref: -20.63
+            S_ref: 39.4
+            Cp_data:
+                - [300, 23.0]
+                - [1000, 51.9]
+            range: [298, 1000]
+"""
+
+
+def load_user_library():
+    """a user's own small library: bare numbers under a units block that differs from the shipped files' (kJ, J)"""
+    from vlib import libgen as LG
+    from pgradd.GroupAdd.Library import GroupLibrary
+    import pgradd.ThermoChem  # noqa
+    with LG.TempLib() as tl:
+        tl.write('library.yaml', USER_LIB)
+        with warnings.catch_warnings():
+            warnings.simplefilter('ignore')
+            return GroupLibrary.Load(tl.path())
+
+
 def single_operation(L, mols):
     """what a fresh process answers: one load, then for each molecule ONE decomposition + estimate on a fresh object"""
     from pgradd.GroupAdd.Library import GroupLibrary
     import pgradd.ThermoChem  # noqa
+    if L == '__user__':
+        return dict(fingerprint=shipped.fingerprint(load_user_library())['groups'], mols={})
     res = dict(fingerprint=shipped.fingerprint(GroupLibrary.Load(L)), mols={})
     for smi in mols:
         lib = GroupLibrary.Load(L)          # fresh object per molecule: nothing has happened on it before
@@ -303,6 +345,22 @@ class Sim(object):
             self.evaluate(k, 0, 0, False, record=False)
             self.evaluate(k, 1, 2, False, record=False)
 
+    def load_user(self):
+        """the user's own library file loaded in this process, after whatever was loaded before: what a fresh process reads"""
+        self.trace.append(['load_user'])
+        try:
+            fp = shipped.fingerprint(load_user_library())['groups']
+        except Exception as e:
+            self.fail('user-library-load-raises:%s' % type(e).__name__, 'loading the user library raised %s: %s' % (type(e).__name__, str(e)[:200]))
+            return
+        self.ctx.count()
+        self.ctx.event('op:load-user-library')
+        self.nontrivial = True
+        want = self.base['__user__']['fingerprint']
+        if not same_fp(fp, want):
+            k = next((g for g in want if not same_fp(fp.get(g), want[g])), None)
+            self.fail('user-library-depends-on-history', 'the user library (kJ/mol, J/(mol K) defaults) read here: %s = %s; in a fresh process %s' % (k, fp.get(k), want.get(k)))
+
     def refused_merge(self, oi, gi):
         """a merge that must be refused (conflicting reference enthalpy, overwrite not allowed; the donor also brings a new Cp
         point and a wider range): afterwards the library is exactly what it was"""
@@ -508,6 +566,7 @@ def shard_setup(ctx):
     with ThreadPoolExecutor(max_workers=3) as ex:
         futs = {L: ex.submit(baseline, L, pools[L]) for L in libs}
         base = {L: f.result() for L, f in futs.items()}
+    base['__user__'] = baseline('__user__', [])
     _state.update(base=base, libs=libs, pools=pools)
     ctx.event('fresh-process-baselines', sum(len(v) for v in pools.values()))
 
@@ -528,7 +587,7 @@ def run_histories(ctx, fam, n):
 
         # ONE rule with a weighted choice of operation: Hypothesis draws rules uniformly, so separate rules would make the mix of
         # operations depend on how many kinds there are (merges would crowd out decompositions and evaluations)
-        @rule(op=st.sampled_from(['decompose'] * 6 + ['estimate'] * 5 + ['evaluate'] * 6 + ['load'] * 2 + ['merge', 'cross_merge', 'cross_merge_twice', 'revise', 'revise', 'refused_merge']),
+        @rule(op=st.sampled_from(['decompose'] * 6 + ['estimate'] * 5 + ['evaluate'] * 6 + ['load'] * 2 + ['merge', 'cross_merge', 'cross_merge_twice', 'revise', 'revise', 'refused_merge', 'load_user']),
               a=st.integers(0, 30), b=st.integers(0, 8), c=st.integers(0, 8), ti=st.integers(0, 4), xi=st.integers(0, 3), flag=st.booleans(),
               mode=st.sampled_from([0, 0, 1, 2]), ui=st.integers(0, 5))
         def step(self, op, a, b, c, ti, xi, flag, mode, ui):
@@ -550,6 +609,8 @@ def run_histories(ctx, fam, n):
                 sim.revise(b, a, xi, ui)
             elif op == 'refused_merge':
                 sim.refused_merge(b, a)
+            elif op == 'load_user':
+                sim.load_user()
             elif op == 'merge':
                 sim.merge(b, c)
             elif op == 'cross_merge':
@@ -580,6 +641,8 @@ def run_histories(ctx, fam, n):
 def replay(ctx, case):
     libs, pools = case['libs'], case['pools']
     base = {L: baseline(L, pools[L]) for L in libs}
+    if any(step[0] == 'load_user' for step in case['trace']):
+        base['__user__'] = baseline('__user__', [])
     sim = Sim(ctx, base, libs, pools)
     for step in case['trace']:
         op = step[0]
@@ -605,6 +668,8 @@ def replay(ctx, case):
             sim.revise(step[1], step[2], step[3], step[4])
         elif op == 'refused_merge':
             sim.refused_merge(step[1], step[2])
+        elif op == 'load_user':
+            sim.load_user()
         elif op == 'merge':
             sim.merge(step[1], step[2])
         elif op == 'cross_merge':
